@@ -72,7 +72,7 @@ def check_case(rec, case):
     t = case['tree']
     n = case['n']
     D = rx.denot(t, n)
-    alpha = ''.join(sorted(rx.symbols(t))) if case.get('own_alphabet') else 'ab'
+    alpha = ''.join(sorted(rx.symbols(t))) if case.get('own_alphabet') else case.get('word_alphabet', 'ab')
     words = list(fa.words_upto(alpha or 'a', n))
     special = any(x in repr(t) for x in ("'*'", "'0'", "'1'"))
     rec.note_case(case, case['cls'], special and 0 < len(D) < len(words))
@@ -88,6 +88,8 @@ def check_case(rec, case):
         if not o.ok:
             report_failure(rec, o, 'regexp_accepts_word', regexp=rx.show(t), word=w)
             break
+    if case.get('no_simplify'):
+        return
     o = call(ra.regexp_simplify, r)
     if not o.ok:
         report_failure(rec, o, 'regexp_simplify', regexp=rx.show(t))
@@ -165,6 +167,12 @@ def gen_cases(rec, rng, tier):
                     if w0:
                         lw.append((w0 * 12)[:rng.choice([9, 11, 16])])
                 yield {'cls': 'random_%s_long_words' % (bias or 'plain'), 'tree': t, 'n': 1, 'cpu': 2, 'long_words': lw}
+    # symbols whose names have several characters (the full text format reads identifiers such as ab or q0 as ONE symbol); the
+    # names are chosen so that concatenations are ambiguous (ab . c / a . bc / abc); matcher only
+    for _ in range(150 if thorough else 25):
+        t = rxg.random_tree(rng, rng.randint(1, 4), ['ab', 'c', 'a', 'bc', 'abc', 'b'], bias=rng.choice([None, 'star', 'unit']))
+        if rx.size_iter(t) <= 14:
+            yield {'cls': 'multi_character_symbols', 'tree': t, 'n': 5, 'cpu': 2, 'word_alphabet': 'abc', 'no_simplify': True}
     for op in '+.':
         for left in (True, False):
             for d in (5, 30, 120):
